@@ -88,7 +88,7 @@ META = {
 }
 
 WATCHDOG_S = 60
-STRICT_S = 20
+STRICT_WORK = 20_000  # nan_at_start: deterministic bound instead of a clock
 WORK_LIMIT = 300_000  # controller invocations per simulation
 ANALYTIC_C = 8e-3      # 10 x the largest normalised deviation observed
 ANALYTIC_FLOOR = 1e-3  # magnitude floor of the scale (RK45 atol regime)
@@ -334,9 +334,14 @@ def _well_behaved(case: dict) -> bool:
 
 def check_program(ctx: Ctx, case: dict, strict: bool = False) -> None:
     try:
-        res, info = _run(case, STRICT_S if strict else WATCHDOG_S,
-                         None if strict else WORK_LIMIT)
+        res, info = _run(case, WATCHDOG_S,
+                         STRICT_WORK if strict else WORK_LIMIT)
     except gen_dc.WorkLimit:
+        if strict:
+            raise Violation(
+                f"run_ode invoked the controller more than {STRICT_WORK} "
+                "times for a differential that is NaN at t=0 (nothing can "
+                "be integrated there: it does not return)") from None
         faultless = not case["eq"].get("fault") \
             and not case["ctrl"].get("fault")
         if case["eq"]["kind"] == "linear" and faultless \
@@ -349,10 +354,6 @@ def check_program(ctx: Ctx, case: dict, strict: bool = False) -> None:
         ctx.rec.inconc("work_limit")
         return
     except _Alarm:
-        if strict:
-            raise Violation(
-                f"run_ode did not return within {STRICT_S} s for a "
-                "differential that is NaN at t=0") from None
         ctx.rec.inconc("watchdog")
         ctx.rec.notes.append(f"watchdog ({WATCHDOG_S} s) hit by "
                              + canon(case)[:700])
@@ -434,6 +435,24 @@ def multi_cases(draw: Any) -> dict:
             "collectors": draw(st.integers(1, 2))}
 
 
+def _counted(ctrl: Any, what: str) -> Any:
+    """The damped linear systems of the multi / describe families are
+    integrated by RK45 in a few hundred steps: a simulation that invokes the
+    controller more than WORK_LIMIT times does not terminate in any useful
+    sense (deterministic bound instead of a clock)."""
+    calls = [0]
+
+    def counted(s: Any, t: float, p: Any, out: Any) -> None:
+        calls[0] += 1
+        if calls[0] > 4 * WORK_LIMIT:
+            raise Violation(
+                f"{what} invoked the controller more than {4 * WORK_LIMIT} "
+                "times on damped linear systems with at most 6 starting "
+                "states that RK45 integrates in a few hundred steps each")
+        ctrl(s, t, p, out)
+    return counted
+
+
 def check_multi(ctx: Ctx, case: dict) -> None:
     """Every simulation started through multi_run_ode has the number of rows
     and the time limit requested for its group (test / training) and equals
@@ -467,7 +486,8 @@ def check_multi(ctx: Ctx, case: dict) -> None:
     tests = [np.array(v, dtype=float) for v in case["test"]]
     trains = [np.array(v, dtype=float) for v in case["train"]]
     sut("multi_run_ode", multi_run_ode, tests, trains,
-        cols if len(cols) > 1 else cols[0], eq, ctrl, params, cdim,
+        cols if len(cols) > 1 else cols[0], eq,
+        _counted(ctrl, "multi_run_ode"), params, cdim,
         case["test_steps"], case["test_time"], case["train_steps"],
         case["train_time"], case["use_dims"], case["gamma"])
     want = [(sp, case["test_steps"], case["test_time"]) for sp in tests] + \
@@ -555,8 +575,8 @@ def check_describe(ctx: Ctx, case: dict) -> None:
     params = np.array([gain])
     tmp = tempfile.mkdtemp(prefix="vf_c10_")
     try:
-        files = sut("describe_system", system.describe_system, None, ctrl,
-                    params, "d", tmp)
+        files = sut("describe_system", system.describe_system, None,
+                    _counted(ctrl, "describe_system"), params, "d", tmp)
         csv = [f for f in files if str(f).endswith(".csv")]
         require(len(csv) == 1 and os.path.isfile(csv[0]),
                 f"describe_system returned {files}")
